@@ -242,7 +242,18 @@ func genIndependent(r *prng, st map[string]int) ([]string, *docInfo, []StaticVar
 			cvars = cvars[1:]
 			continue
 		}
-		rules = append(rules, dsts[i].text+" = "+s)
+		rule := dsts[i].text + " = " + s
+		switch r.intn(8) {
+		case 0:
+			// the same rule as the single iteration of a loop / inside a taken branch:
+			// what it wrote must survive the end of the block
+			rule = fmt.Sprintf("for w%d := 0; w%d < 1; w%d++ {\n%s\n}", i, i, i, rule)
+		case 1:
+			rule = "if jso.t == true {\n" + rule + "\n}"
+		case 2:
+			rule = fmt.Sprintf("for w%d := 5; w%d < 7; w%d++ {\n%s\n}", i, i, i, rule)
+		}
+		rules = append(rules, rule)
 	}
 	return rules, d, g.statics
 }
@@ -464,6 +475,7 @@ func init() {
 		sum, err := runC17(cfg)
 		if err == nil {
 			aliasOracle(sum)
+			goldenCalls(sum)
 		}
 		return sum, err
 	}
@@ -501,7 +513,7 @@ func init() {
 func runC14Interp(cfg *runCfg) (*Summary, error) {
 	{
 		return runInterp(cfg, "C14", 160, 1800,
-			"sequences of 2-4 jobs (random core-grammar programs and documents, some failing midway through injected errors, some breaking out of nested loops, cond-OK helpers, getters, context variables) on one context with Reset between jobs; oracle: each job shows exactly what it shows on a newly created context",
+			"sequences of 2-4 jobs (random core-grammar programs and documents, some failing midway through injected errors, some breaking out of nested loops, cond-OK helpers, getters, context variables; a third of the jobs repeat an earlier decoder of the sequence through the same parsed tree) on one context with Reset between jobs; oracle: each job shows exactly what it shows on a newly created context",
 			func(r *prng, i int, st map[string]int) *ICase {
 				n := 2 + r.intn(3)
 				c := &ICase{Tag: "reuse"}
@@ -509,6 +521,15 @@ func runC14Interp(cfg *runCfg) (*Summary, error) {
 					j := genJob(r, allOpts, 2+r.intn(4), 3, st)
 					if r.chance(1, 3) {
 						j.Fail = r.intn(4)
+					}
+					if k > 0 && r.chance(1, 3) {
+						// the same decoder again (its tree is parsed once and reused) on the
+						// document it was generated for (its paths are valid there: an index
+						// past the end of an array is known finding D25)
+						prev := c.Jobs[r.intn(len(c.Jobs))]
+						j.Prog, j.Statics, j.GetVars = prev.Prog, prev.Statics, prev.GetVars
+						j.doc, j.Doc = prev.doc, prev.Doc
+						st["job repeating an earlier decoder of the sequence"]++
 					}
 					c.Jobs = append(c.Jobs, j)
 				}
@@ -863,4 +884,38 @@ func runC17(cfg *runCfg) (*Summary, error) {
 		func(r *prng, i int, st map[string]int) *ICase {
 			return singleJob("calls", genCallsJob(r, st))
 		}, hasTrace, noPanic)
+}
+
+// goldenCalls: programs whose outcome is written down from the property's text
+// (arguments in order, modifiers left to right, coalesce = first present key),
+// independently of the parsed tree: the correspondence hands the real parser's
+// tree to the model, so a parser that misreads a call is only seen here (and by
+// the parser model in C09).
+func goldenCalls(sum *Summary) {
+	doc, _ := parseJV(`{"s":"abc","s2":"xyz","n":7,"nul":null,"t":true,"fl":false,"o":{"k":5,"name":"nm"}}`)
+	type gold struct {
+		prog   string
+		id     string // expected obj.Id
+		name   string // expected obj.Name
+		traces []string
+	}
+	for _, g := range []gold{
+		{"obj.Id = jso.{nokey|s}|upper()\nobj.Name = jso.{nul|s2|s}|suffix(\"!\")|upper()\n", "S:ABC", "B:XYZ!", []string{"mod:upper(str:abc)", "mod:suffix(str:xyz,B:!)", "mod:upper(B:xyz!)"}},
+		{"obj.Id = jso.s|suffix(jso.{nokey|s2}, \"-\", jso.o.{zz|k})\nobj.Name = jso.nul|default(jso.{nul|s})\n", "S:abcxyz-5", "B:abc", []string{"mod:suffix(str:abc,str:xyz,B:-,num:5)"}},
+		{"obj.Id = jso.t|ifThen(jso.{nokey|s})|upper()\nobj.Name = jso.fl|ifThenElse(\"y\", jso.o.{name|k})|suffix(\"?\")\n", "S:ABC", "B:nm?", []string{"mod:upper(str:abc)", "mod:suffix(str:nm,B:?)"}},
+		{"probe(jso.{nokey|s}, \"lit\", 5, jso.o.k, jso.{nul|n})\nobj.Id = ident(jso.{nokey|s2}, jso.s)\nif eq(jso.{nokey|s}, \"abc\") {\nobj.Name = \"yes\"\n}\n", "S:xyz", "B:yes", []string{"cb:probe(str:abc,B:lit,B:5,num:5,num:7)", "get:ident(str:xyz,str:abc)", "cond:eq(str:abc,B:abc)"}},
+		{"obj.Name = jso.s|upper()|suffix(\"1\")|ns::suffix(\"2\", \"3\")|bar::baz()\nobj.Id = jso.{nokey}|default(\"d\")|suffix(jso.{s2})\n", "S:dxyz", "B:ABC123", []string{"mod:upper(str:abc)", "mod:suffix(B:ABC,B:1)", "mod:ns::suffix(B:ABC1,B:2,B:3)", "mod:suffix(B:d,str:xyz)"}},
+	} {
+		c := singleJob("golden calls", Job{Prog: g.prog, doc: doc, Fail: -1})
+		if err := c.exec(); err != nil {
+			addFail(sum, "a golden program is rejected: "+err.Error(), c, "accepted", "rejected")
+			continue
+		}
+		sum.Evaluations++
+		o := c.Obs[0]
+		if o.Res != "None" || o.Fields[0][0] != g.id || o.Fields[0][1] != g.name || !reflect.DeepEqual(o.Trace, g.traces) {
+			addFail(sum, "a call did not receive the written arguments in order / a modifier chain did not run left to right / a coalesce group did not select the first present key", c,
+				fmt.Sprint("Id=", g.id, " Name=", g.name, " calls=", g.traces), fmt.Sprint(o.Res, " Id=", o.Fields[0][0], " Name=", o.Fields[0][1], " calls=", o.Trace))
+		}
+	}
 }
